@@ -11,5 +11,5 @@ def run(ctx):
         u1_quick={"want": ["-", "JRW"], "given": ["-", "JRW"], "kinds": ["NewGrp", "Sub", "Leave", "Pub", "Unload"], "maxseq": 3, "nusers": 2},
         u1_thorough={"want": ["-", "JRW", "JW"], "given": ["-", "JRW"], "kinds": KINDS, "maxseq": 3, "nusers": 2},
         e2pub={"quick": 12, "thorough": 150},
-        faults={"quick": 120, "thorough": 3000, "modes": ("error", "crash"), "kinds": ("Pub",)},
+        faults={"quick": 120, "thorough": 1200, "modes": ("error", "crash"), "kinds": ("Pub",)},
         sim_quick={"num": 100, "depth": 16}, sim_thorough={"num": 1200, "depth": 24})
